@@ -11,7 +11,7 @@ import ast
 
 import z3
 
-from pyvc.interp import Explorer, Undecided, SymRaise, LoopSpec, Forall
+from pyvc.interp import Explorer, Undecided, SymRaise, LoopSpec, Forall, PathCut
 from pyvc.schema import Typing
 from pyvc.values import (PObj, SRef, SInt, SBool, SStr, SReal, Sym, Model, BoundMethod, ClassRef, Closure, ExcVal,
                          ExcClass, z3_of, kind_of)
@@ -44,6 +44,8 @@ FIELDS = {
     "alloc": Z,
     # ghost: which waiter holds job j (0 none) / which connection pulled it (0 none); finished counter
     "holder": A(Z, Z), "conn": A(Z, Z), "g_finished": Z,
+    # ghost: class tag of a reference (one allocation pool for jobs, events, async results)
+    "is_job": A(Z, Bo),
 }
 
 JOB_FIELD = {  # python attribute -> (state array, kind)
@@ -60,7 +62,7 @@ INDEX_TYPES.update({"e_set": ("event",), "a_ready": ("waiter",), "a_value": ("wa
                     "a_any": ("waiter",), "id_has": ("id",), "id_val": ("id",), "q_has": ("chan",), "Q": ("chan", "job"),
                     "W": ("waiter",), "TQ": ("job",), "c_has": ("chan",), "c_error": ("chan",), "c_timeout": ("chan",),
                     "c_killed": ("chan",), "c_success": ("chan",), "R_has": ("conn", "id"), "R_val": ("conn", "id"),
-                    "holder": ("job",), "conn": ("job",)})
+                    "holder": ("job",), "conn": ("job",), "is_job": ("job",)})
 VALUE_TYPES = {"a_value": "job", "id_val": "job", "R_val": "job", "holder": "waiter", "conn": "conn", "j_chan": "chan",
                "j_jobid": "id", "j_event": "event"}
 TYPING = Typing(INDEX_TYPES, VALUE_TYPES, {"heap_min": "job", "timeoutq_min": "job"})
@@ -397,6 +399,7 @@ def install(ex):
     # ---- job(...) constructor: allocate, apply class-level defaults, run the real __init__
     def new_job(I, cls, *args, **kw):
         r = SRef("job", alloc(I))
+        st(I)["is_job"] = z3.Store(st(I)["is_job"], r.z, True)
         for n in job_cls.node.body:
             if isinstance(n, ast.Assign) and len(n.targets) == 1 and isinstance(n.targets[0], ast.Name):
                 nm = n.targets[0].id
@@ -416,6 +419,7 @@ def install(ex):
     def new_event(I):
         r = SRef("event", alloc(I))
         S = st(I)
+        S["is_job"] = z3.Store(S["is_job"], r.z, False)
         S["e_set"] = z3.Store(S["e_set"], r.z, False)
         return r
     ex.models["gevent.event.Event"] = Model("gevent.event.Event()", new_event)
@@ -429,6 +433,7 @@ def install(ex):
     def new_async(I):
         r = SRef("asyncresult", alloc(I))
         S = st(I)
+        S["is_job"] = z3.Store(S["is_job"], r.z, False)
         S["a_ready"] = z3.Store(S["a_ready"], r.z, False)
         return r
     ex.models["gevent.event.AsyncResult"] = Model("gevent.event.AsyncResult()", new_async)
@@ -626,6 +631,8 @@ def install(ex):
                     k = name
                     break
             else:
+                if not I.path_feasible():
+                    raise PathCut()
                 raise Undecided("counter key")
         S = st(I)
         S["c_" + k] = z3.Store(S["c_" + k], c.fields["chan"], I._int_term(v))
@@ -739,6 +746,10 @@ def valid_ref(S, r):
     return z3.And(r >= 1, r < S["alloc"])
 
 
+def valid_job(S, r):
+    return z3.And(r >= 1, r < S["alloc"], z3.Select(S["is_job"], r))
+
+
 def b2i(b):
     return z3.If(b, z3.IntVal(1), z3.IntVal(0))
 
@@ -756,45 +767,49 @@ def inv_clauses(S, j, w, c, k, i):
     cl = {}
     # I1: a known unfinished job is in exactly one place
     cl["I1_exactly_one_place"] = z3.Implies(
-        z3.And(valid_ref(S, j), known(S, j), z3.Not(done)),
+        z3.And(valid_job(S, j), known(S, j), z3.Not(done)),
         inq + b2i(holder != 0) + b2i(conn != 0) == 1)
     # I2: queue entries are valid jobs, filed under their own channel, with a serial
     qcj = sel2(S["Q"], c, j)
     cl["I2_queue_entries"] = z3.And(qcj >= 0, z3.Implies(qcj > 0, z3.And(
-        valid_ref(S, j), c == chan, z3.Select(S["q_has"], c), z3.Select(S["j_serial"], j) != 0, jid != 0, qcj == 1)))
+        valid_job(S, j), c == chan, z3.Select(S["q_has"], c), z3.Select(S["j_serial"], j) != 0, jid != 0, qcj == 1)))
     # I3: holder ghost <-> ready registered waiter holding that job
     cl["I3a_holder_is_ready_waiter"] = z3.Implies(
-        z3.And(valid_ref(S, j), holder != 0),
+        z3.And(valid_job(S, j), holder != 0),
         z3.And(z3.Select(S["W"], holder), z3.Select(S["a_ready"], holder), z3.Select(S["a_value"], holder) == j))
     cl["I3b_ready_waiter_holds_its_value"] = z3.Implies(
         z3.And(z3.Select(S["W"], w), z3.Select(S["a_ready"], w)),
-        z3.And(valid_ref(S, z3.Select(S["a_value"], w)), z3.Select(S["holder"], z3.Select(S["a_value"], w)) == w,
+        z3.And(valid_job(S, z3.Select(S["a_value"], w)), z3.Select(S["holder"], z3.Select(S["a_value"], w)) == w,
                z3.Select(S["j_serial"], z3.Select(S["a_value"], w)) != 0,
                z3.Select(S["j_jobid"], z3.Select(S["a_value"], w)) != 0))
-    cl["I3c_waiters_valid"] = z3.Implies(z3.Select(S["W"], w), valid_ref(S, w))
+    cl["I3c_waiters_valid"] = z3.Implies(z3.Select(S["W"], w), z3.And(valid_ref(S, w), z3.Not(z3.Select(S["is_job"], w))))
     # I4: conn ghost <-> running_jobs of that connection
     cl["I4a_conn_has_job"] = z3.Implies(
-        z3.And(valid_ref(S, j), conn != 0, z3.Not(done)),
+        z3.And(valid_job(S, j), conn != 0, z3.Not(done)),
         z3.And(sel2(S["R_has"], conn, jid), sel2(S["R_val"], conn, jid) == j))
     rj = sel2(S["R_val"], k, i)
     cl["I4b_running_jobs_owned"] = z3.Implies(
-        z3.And(sel2(S["R_has"], k, i), z3.Not(z3.Select(S["j_done"], rj))),
-        z3.And(valid_ref(S, rj), z3.Select(S["conn"], rj) == k, z3.Select(S["j_jobid"], rj) == i, k != 0))
+        sel2(S["R_has"], k, i),
+        z3.And(valid_job(S, rj), z3.Select(S["j_jobid"], rj) == i, k != 0, i != 0, z3.Select(S["j_serial"], rj) != 0,
+               z3.Implies(z3.Not(z3.Select(S["j_done"], rj)), z3.Select(S["conn"], rj) == k)))
     # I6: serials of known jobs are set and bounded by the counter; id table entries are valid
-    cl["I6_serial_bounded"] = z3.Implies(z3.And(valid_ref(S, j), z3.Select(S["j_serial"], j) != 0),
+    cl["I6_serial_bounded"] = z3.Implies(z3.And(valid_job(S, j), z3.Select(S["j_serial"], j) != 0),
                                          z3.And(z3.Select(S["j_serial"], j) >= 1, z3.Select(S["j_serial"], j) <= S["count"]))
     iv = z3.Select(S["id_val"], i)
     cl["I7_id_table"] = z3.Implies(z3.Select(S["id_has"], i),
-                                   z3.And(valid_ref(S, iv), z3.Select(S["j_jobid"], iv) == i, i != 0,
+                                   z3.And(valid_job(S, iv), z3.Select(S["j_jobid"], iv) == i, i != 0,
                                           z3.Select(S["j_serial"], iv) != 0))
     cl["I8_alloc_positive"] = z3.And(S["alloc"] >= 1, S["count"] >= 0)
     # I9: an unfinished job that has been pushed (has a serial) is the one registered under its id
     cl["I9_pushed_unfinished_jobs_are_known"] = z3.Implies(
-        z3.And(valid_ref(S, j), z3.Select(S["j_serial"], j) != 0, z3.Not(done)), known(S, j))
+        z3.And(valid_job(S, j), z3.Select(S["j_serial"], j) != 0, z3.Not(done)), known(S, j))
     cl["I10_timeoutq_entries"] = z3.And(z3.Select(S["TQ"], j) >= 0,
-                                        z3.Implies(z3.Select(S["TQ"], j) > 0, valid_ref(S, j)))
+                                        z3.Implies(z3.Select(S["TQ"], j) > 0, valid_job(S, j)))
+    # I12/I13: an error or a drop deadline is only ever recorded on a finished job
+    cl["I12_error_implies_done"] = z3.Implies(z3.And(valid_job(S, j), z3.Not(z3.Select(S["j_err_none"], j))), done)
+    cl["I13_deadline_implies_done"] = z3.Implies(z3.And(valid_job(S, j), z3.Select(S["j_deadline"], j) != 0), done)
     cl["I11_nowhere_without_serial"] = z3.Implies(
-        z3.And(valid_ref(S, j), z3.Select(S["j_serial"], j) == 0),
+        z3.And(valid_job(S, j), z3.Select(S["j_serial"], j) == 0),
         z3.And(holder == 0, conn == 0))
     return cl
 
@@ -838,23 +853,32 @@ def clause_schemas(S):
     return out
 
 
+_inv_cache = {}
+
+
+def inv_quantified(S):
+    """Inv(S) as a list of (label, Forall schema | closed formula); memoised on the state
+    terms so that `Inv of an unchanged state` is recognised as already assumed"""
+    key = tuple(S.t[k].get_id() for k in sorted(S.t))
+    hit = _inv_cache.get(key)
+    if hit is None:
+        snap = S.copy()
+        hit = (snap, [(name, Forall(types, fn, name) if types else fn()) for name, types, fn in clause_schemas(snap)])
+        if len(_inv_cache) > 5000:
+            _inv_cache.clear()
+        _inv_cache[key] = hit
+    return hit[1]
+
+
 def assume_inv(I, S, extra=None):
-    for name, types, fn in clause_schemas(S):
-        if types:
-            I.assume(Forall(types, fn, name))
-        else:
-            I.assume(fn())
+    for name, f in inv_quantified(S):
+        I.assume(f)
 
 
 def oblige_inv(I, S, prefix="inv"):
     """one obligation per clause, the outer forall skolemised by fresh typed constants"""
-    for name, types, fn in clause_schemas(S):
-        I.oblige(f"{prefix}.{name}", Forall(types, fn, name) if types else fn())
-
-
-def inv_quantified(S):
-    """Inv as a list of (label, Forall schema | closed formula)"""
-    return [(name, Forall(types, fn, name) if types else fn()) for name, types, fn in clause_schemas(S)]
+    for name, f in inv_quantified(S):
+        I.oblige(f"{prefix}.{name}", f)
 
 
 def state_loop_spec(extra=None, extra_havoc=(), rebinding=None):
@@ -883,12 +907,12 @@ def unchanged_loop_spec(extra, extra_havoc=(), havoc=None):
     """LoopSpec for a loop that must not modify the abstract state (checked: identical terms)"""
     def invariant(I, v, it):
         S = st(I)
-        saved = I.ghost.get("loop_saved")
+        saved = it.get("saved_state") if it is not None else None
         same = True if saved is None else all(S.t[k].eq(saved[k]) for k in S.t)
         return [("loop_body_does_not_modify_queue_state", same)] + extra(I, v, it)
 
     def hv(I, v, it):
-        I.ghost["loop_saved"] = dict(st(I).t)
+        it["saved_state"] = dict(st(I).t)
         if havoc:
             havoc(I, v, it)
     return LoopSpec(invariant, None, hv, extra_havoc=extra_havoc)
